@@ -42,6 +42,9 @@ pub struct Profile {
     pub monitors: bool,
     /// probability (percent) that spin budgets are left as written
     pub p_full_spin: u32,
+    pub min_tasks: u8,
+    /// percent of observers that read the handle counts
+    pub p_obs_counts: u32,
 }
 
 impl Default for Profile {
@@ -78,6 +81,8 @@ impl Default for Profile {
             faults: true,
             monitors: true,
             p_full_spin: 5,
+            min_tasks: 2,
+            p_obs_counts: 20,
         }
     }
 }
@@ -149,6 +154,30 @@ pub fn gen_plan(rng: &mut Rng, p: &Profile) -> PollPlan {
     plan
 }
 
+/// make a poll plan wait only for a bounded number of decisions: every unbounded wait becomes a bounded one
+/// and the plan ends by dropping the future
+fn bound_plan(rng: &mut Rng, plan: &mut PollPlan) {
+    if plan.never_poll {
+        return;
+    }
+    let mut acts = Vec::new();
+    for a in plan.acts.iter().take(2) {
+        let b = match a {
+            PollAct::Wait => PollAct::Spurious { steps: *rng.pick(&[2u16, 5, 13, 40]), new_waker: false },
+            PollAct::WaitNewWaker => PollAct::Spurious { steps: *rng.pick(&[2u16, 5, 13, 40]), new_waker: true },
+            x => *x,
+        };
+        let stop = matches!(b, PollAct::Cancel { .. } | PollAct::CancelNow);
+        acts.push(b);
+        if stop {
+            plan.acts = acts;
+            return;
+        }
+    }
+    acts.push(PollAct::Cancel { steps: *rng.pick(&[0u16, 3, 13, 50]) });
+    plan.acts = acts;
+}
+
 struct IdGen(u32);
 impl IdGen {
     fn next(&mut self) -> u32 {
@@ -175,9 +204,8 @@ fn gen_send(rng: &mut Rng, p: &Profile, h: u8, ids: &mut IdGen, bounded_wait_onl
         6 => Op::TrySendOptRt { h, id },
         _ => {
             let mut plan = gen_plan(rng, p);
-            if bounded_wait_only && !plan.never_poll && !plan.acts.iter().any(|a| matches!(a, PollAct::Cancel { .. } | PollAct::CancelNow)) {
-                plan.acts.truncate(2);
-                plan.acts.push(PollAct::Cancel { steps: *rng.pick(&[3u16, 13, 50]) });
+            if bounded_wait_only {
+                bound_plan(rng, &mut plan);
             }
             Op::ASend { h, id, plan }
         }
@@ -199,9 +227,8 @@ fn gen_recv(rng: &mut Rng, p: &Profile, h: u8, stream_open: &mut bool, bounded_w
         4 => out.push(Op::Drain { h, pre: rng.below(3) as u8, spare: *rng.pick(&[0u8, 0, 1, 4]) }),
         5 => {
             let mut plan = gen_plan(rng, p);
-            if bounded_wait_only && !plan.never_poll && !plan.acts.iter().any(|a| matches!(a, PollAct::Cancel { .. } | PollAct::CancelNow)) {
-                plan.acts.truncate(2);
-                plan.acts.push(PollAct::Cancel { steps: *rng.pick(&[3u16, 13, 50]) });
+            if bounded_wait_only {
+                bound_plan(rng, &mut plan);
             }
             out.push(Op::ARecv { h, plan })
         }
@@ -212,9 +239,8 @@ fn gen_recv(rng: &mut Rng, p: &Profile, h: u8, stream_open: &mut bool, bounded_w
             }
             let mut plan = gen_plan(rng, p);
             plan.never_poll = false;
-            if bounded_wait_only && !plan.acts.iter().any(|a| matches!(a, PollAct::Cancel { .. } | PollAct::CancelNow)) {
-                plan.acts.truncate(2);
-                plan.acts.push(PollAct::Cancel { steps: *rng.pick(&[3u16, 13, 50]) });
+            if bounded_wait_only {
+                bound_plan(rng, &mut plan);
             }
             out.push(Op::StreamNext { plan });
             if rng.chance(1, 6) {
@@ -226,7 +252,10 @@ fn gen_recv(rng: &mut Rng, p: &Profile, h: u8, stream_open: &mut bool, bounded_w
     }
 }
 
-fn gen_observe(rng: &mut Rng, h: u8, side: Side) -> Op {
+fn gen_observe(rng: &mut Rng, h: u8, side: Side, p_counts: u32) -> Op {
+    if rng.below(100) < p_counts as u64 {
+        return Op::Observe { h, what: if rng.chance(1, 2) { Obs::SenderCount } else { Obs::ReceiverCount } };
+    }
     let all = [
         Obs::Len,
         Obs::IsEmpty,
@@ -255,7 +284,10 @@ pub fn gen_case(rng: &mut Rng, p: &Profile) -> Case {
     let ctor = if rng.chance(1, 2) { Flavour::Sync } else { Flavour::Async };
     let ns = rng.range(p.senders.0 as u64, p.senders.1 as u64) as usize;
     let nr = rng.range(p.receivers.0 as u64, p.receivers.1 as u64) as usize;
-    let nb = rng.range(p.both.0 as u64, p.both.1 as u64) as usize;
+    let mut nb = rng.range(p.both.0 as u64, p.both.1 as u64) as usize;
+    while ns + nr + nb < p.min_tasks as usize {
+        nb += 1;
+    }
     let mut ids = IdGen(0);
     let mut tasks = Vec::new();
     let mut roles: Vec<u8> = Vec::new();
@@ -306,7 +338,7 @@ pub fn gen_case(rng: &mut Rng, p: &Profile) -> Case {
             }
             if rng.below(100) < p.p_observe as u64 {
                 let (h, side, _) = slots[rng.below(slots.len() as u64) as usize];
-                ops.push(gen_observe(rng, h, side));
+                ops.push(gen_observe(rng, h, side, p.p_obs_counts));
             }
             if rng.below(100) < p.p_handle_ops as u64 {
                 let live: Vec<(u8, Side, bool)> = slots.iter().copied().filter(|s| s.2).collect();
@@ -400,6 +432,81 @@ pub fn profile_for(prop: &str) -> Profile {
         "C08" => {
             p.p_observe = 15;
             p.caps = vec![(Cap::Bounded(0), 30), (Cap::Bounded(1), 25), (Cap::Bounded(2), 20), (Cap::Bounded(3), 10), (Cap::Unbounded, 15)];
+        }
+        "C03" => {
+            p.senders = (0, 1);
+            p.receivers = (0, 1);
+            p.both = (0, 2);
+            p.ops = (1, 3);
+            p.p_close = 15;
+            p.p_handle_ops = 15;
+            p.p_observe = 30;
+            p.recv_w[6] = 0;
+            p.p_recv_all = 20;
+            p.p_cancel = 10;
+            p.p_yield = 10;
+        }
+        "C10" => {
+            p.p_close = 60;
+            p.p_observe = 20;
+            p.senders = (1, 2);
+            p.receivers = (1, 2);
+            p.both = (0, 1);
+            p.ops = (1, 4);
+        }
+        "C11" => {
+            p.p_handle_ops = 35;
+            p.senders = (1, 3);
+            p.receivers = (1, 3);
+            p.ops = (1, 4);
+            p.p_recv_all = 40;
+            p.p_observe = 5;
+        }
+        "C12" => {
+            p.senders = (0, 1);
+            p.receivers = (0, 1);
+            p.both = (1, 3);
+            p.p_handle_ops = 50;
+            p.p_observe = 50;
+            p.p_obs_counts = 85;
+            p.p_close = 10;
+            p.ops = (1, 5);
+        }
+        "C13" => {
+            p.send_w = [5, 35, 35, 3, 3, 2, 2, 15];
+            p.recv_w = [10, 50, 5, 2, 3, 20, 5, 5];
+            p.p_advance = 15;
+            p.p_close = 8;
+            p.p_handle_ops = 5;
+        }
+        "C14" => {
+            p.send_w = [10, 3, 3, 20, 20, 15, 15, 14];
+            p.recv_w = [15, 5, 25, 25, 15, 10, 3, 2];
+            p.p_close = 5;
+        }
+        "C15" => {
+            p.p_cancel = 45;
+            p.p_never_poll = 8;
+            p.send_w = [15, 3, 3, 5, 3, 2, 2, 67];
+            p.recv_w = [15, 3, 5, 2, 5, 55, 12, 3];
+            p.senders = (1, 3);
+            p.receivers = (1, 3);
+        }
+        "C16" => {
+            p.p_cancel = 0;
+            p.p_never_poll = 0;
+            p.p_spurious = 40;
+            p.p_new_waker = 30;
+            p.p_repoll = 30;
+            p.send_w = [15, 2, 2, 3, 2, 1, 1, 74];
+            p.recv_w = [10, 2, 3, 1, 3, 41, 38, 2];
+        }
+        "C19" => {
+            p.recv_w = [10, 5, 5, 2, 50, 10, 5, 3];
+            p.senders = (1, 3);
+            p.ops = (1, 5);
+            p.caps = vec![(Cap::Bounded(0), 30), (Cap::Bounded(1), 30), (Cap::Bounded(2), 20), (Cap::Bounded(3), 10), (Cap::Unbounded, 10)];
+            p.p_close = 5;
         }
         "C09" => {
             p.mixed_flavours = true;
